@@ -124,6 +124,9 @@ async def make_env(svc_vars: List[List[Dict[str, Any]]]):
         async def async_stop_server(self) -> None:
             pass
 
+    import logging
+    for name in ("async_upnp_client.client", "async_upnp_client.event_handler", "async_upnp_client.client_factory"):
+        logging.getLogger(name).setLevel(logging.CRITICAL + 1)
     rq = Requester(svc_vars)
     dev = await UpnpFactory(rq).async_create_device(DEVICE_URL)
     svcs = [dev.service(f"urn:schemas-upnp-org:service:S{i}:1") for i in range(len(svc_vars))]
@@ -144,3 +147,139 @@ def exc_tok(e: BaseException) -> str:
 def td_seconds(td) -> int:
     assert td.microseconds == 0, td
     return td.days * 86400 + td.seconds
+
+
+# ---- NOTIFY side (C10 / C11) ------------------------------------------------------------------------
+
+EVENT_NS = "urn:schemas-upnp-org:event-1-0"
+
+
+def render_body(body, pad: str = "", style: int = 0) -> str:
+    """body: [{"p": bool, "kids": [[ns, name, text], ...]}, ...] -> property-set XML.
+    style 0: `e:` prefix for the event namespace; style 1: other prefix name."""
+    pre = ["e", "ev"][style % 2]
+    out = [f'<?xml version="1.0"?><{pre}:propertyset xmlns:{pre}="{EVENT_NS}">']
+    q = 0
+    for el in body:
+        tag = f"{pre}:property" if el["p"] else "junk"
+        out.append(f"<{tag}>")
+        for ns, name, text in el["kids"]:
+            if ns:
+                q += 1
+                open_ = f'<q{q}:{name} xmlns:q{q}="{escape(ns, {chr(34): "&quot;"})}"'
+                close = f"</q{q}:{name}>"
+            else:
+                open_ = f"<{name}"
+                close = f"</{name}>"
+            if text == "" and (q + len(name)) % 2:
+                out.append(open_ + "/>")
+            else:
+                out.append(open_ + ">" + escape(text) + close)
+        out.append(f"</{tag}>")
+    out.append(f"</{pre}:propertyset>")
+    return "".join(out) + pad
+
+
+def body_tok(body) -> str:
+    from harness.common import tok_str
+
+    if not body:
+        return "~"
+    return ";".join(("P" if el["p"] else "X") + "|" + ",".join(f"{tok_str(ns)}:{tok_str(nm)}:{tok_str(tx)}" for ns, nm, tx in el["kids"])
+                    for el in body)
+
+
+def opt_tok(s) -> str:
+    from harness.common import tok_str
+
+    return "!" if s is None else tok_str(s)
+
+
+def decl_lines(svc_vars) -> List[str]:
+    from harness.common import tok_str
+
+    out = [f"nsvc {len(svc_vars)}"]
+    for i, ds in enumerate(svc_vars):
+        for d in ds:
+            al = ",".join(tok_str(a) for a in d.get("allowed") or []) or "~"
+            mn = "!" if d.get("min") is None else str(d["min"])
+            mx = "!" if d.get("max") is None else str(d["max"])
+            out.append(f"decl {i} {tok_str(d['name'])} {tok_str(d['type'])} {mn} {mx} {al}")
+    return out
+
+
+TICK = [0]
+_BASE = None
+
+
+def install_clock() -> None:
+    """replace `datetime` in async_upnp_client.client by a subclass whose now() is the virtual tick"""
+    global _BASE
+    import datetime as _dt
+
+    from async_upnp_client import client
+
+    if getattr(client.datetime, "_c09_fake", False):
+        return
+    real = _dt.datetime
+
+    class FakeDT(real):  # type: ignore[misc,valid-type]
+        _c09_fake = True
+
+        @classmethod
+        def now(cls, tz=None):
+            return real(2000, 1, 1, tzinfo=tz) + _dt.timedelta(seconds=TICK[0])
+
+    client.datetime = FakeDT
+
+
+def val_tok(v) -> str:
+    from harness.common import tok_str
+
+    if v is None:
+        return "!"
+    if isinstance(v, bool):
+        return "bT" if v else "bF"
+    if isinstance(v, int):
+        return f"i{v}"
+    if isinstance(v, str):
+        return "s" + tok_str(v)
+    return "?" + type(v).__name__
+
+
+def state_line(i: int, svc) -> str:
+    import datetime as _dt
+
+    from harness.common import tok_str
+
+    parts = []
+    for name, sv in svc.state_variables.items():
+        ua = sv.updated_at
+        up = "!" if ua is None else str(int((ua - _dt.datetime(2000, 1, 1, tzinfo=_dt.timezone.utc)).total_seconds()))
+        parts.append(f"{tok_str(name)}:{val_tok(sv.value)}:{up}")
+    return f"st {i} " + (",".join(parts) or "~")
+
+
+def notify_headers(nt, nts, sid, k: int = 0):
+    """the headers object handed to handle_notify: what aiohttp's request.headers is (CIMultiDictProxy)"""
+    from multidict import CIMultiDict, CIMultiDictProxy
+
+    h = CIMultiDict()
+    h["HOST"] = "192.168.1.2:8090"
+    h["CONTENT-TYPE"] = 'text/xml; charset="utf-8"'
+    if nt is not None:
+        h[["NT", "Nt", "nt"][k % 3]] = nt
+    if nts is not None:
+        h[["NTS", "nts", "Nts"][k % 3]] = nts
+    if sid is not None:
+        h[["SID", "Sid", "sid"][k % 3]] = sid
+    h["SEQ"] = str(k)
+    return CIMultiDictProxy(h)
+
+
+def events_tok(evs) -> str:
+    from harness.common import tok_str
+
+    if not evs:
+        return "~"
+    return "|".join(",".join(tok_str(n) for n in names) if names else "-" for names in evs)
